@@ -1,7 +1,143 @@
-(* Model runner for C05: evaluates the extracted policy model on every case and the
-   property oracle (the specification side) on what the implementation answered. *)
+(* Model runner for the SMTP session properties (template: C05 is substituted per property by
+   ml/gen_smtp_runners.sh). Evaluates the extracted byte-level session model on the client stream
+   of every case and the dialogue specifications (the property oracles) on what the
+   IMPLEMENTATION answered and stored. *)
 open C05_model
 open Conv
+
+let pid = "C05"
+
+let split c s = if s = "-" || s = "" then [] else String.split_on_char c s
+let opt_str f = if f = "~" then None else Some (str_of_field f)
+
+let parse_mail_table t =
+  List.map (fun e ->
+    match String.split_on_char ':' e with
+    | [arg; m; hp; pok; size; oa; od] ->
+        (str_of_field arg,
+         { mf_match = (m = "1"); mf_has_params = (hp = "1"); mf_params_ok = (pok = "1");
+           mf_size = opt_str size;
+           mf_origin = (match opt_str oa, opt_str od with
+                        | Some a, Some d -> Some { o_addr = a; o_domain = d }
+                        | _ -> None) })
+    | _ -> failwith ("bad mail table entry " ^ e)) (split ',' t)
+
+let parse_rcpt_table t =
+  List.map (fun e ->
+    match String.split_on_char ':' e with
+    | [addr; ok; a; d; mb] ->
+        (str_of_field addr,
+         if ok = "1" then Some { r_addr = str_of_field a; r_domain = str_of_field d; r_mailbox = str_of_field mb }
+         else None)
+    | _ -> failwith ("bad rcpt table entry " ^ e)) (split ',' t)
+
+let parse_list f =   (* "[a;b]" *)
+  let inner = String.sub f 1 (String.length f - 2) in
+  if inner = "" then [] else List.map str_of_field (String.split_on_char ';' inner)
+
+let parse_hdr_table t =
+  List.map (fun e ->
+    match String.split_on_char ':' e with
+    | [body; ok; from; to_; subj] ->
+        (str_of_field body,
+         if ok = "1" then
+           Some { h_from = opt_str from;
+                  h_to = (if to_ = "~" then None else Some (parse_list to_));
+                  h_subject = str_of_field subj }
+         else None)
+    | _ -> failwith ("bad hdr table entry " ^ e)) (split ',' t)
+
+(* reply tokens "250-" / "250" / "X" *)
+let parse_replies f : rline list =
+  List.map (fun t ->
+    let more = String.length t > 0 && t.[String.length t - 1] = '-' in
+    let digits = if more then String.sub t 0 (String.length t - 1) else t in
+    let code = try int_of_string digits with _ -> -1 in
+    (z_of_int code, more)) (split ',' f)
+let show_replies (r : rline list) =
+  if r = [] then "-" else
+  String.concat "," (List.map (fun (c, more) -> string_of_int (int_of_z c) ^ (if more then "-" else "")) r)
+
+let ip = str_of_raw "127.0.0.1"
+let domain = str_of_raw "inbucket"
+
+let show_store (ds : delivery list) : string =
+  let st = store_after [] ds in
+  let boxes = List.map (fun (name, ms) ->
+    (raw_of_str name,
+     String.concat "/" (List.map (fun d ->
+       let src = raw_of_str (stored_source d.d_retpath d.d_helo ip domain d.d_mailbox d.d_body) in
+       String.concat ":" [ field_of_str d.d_from;
+                           "[" ^ String.concat ";" (List.map field_of_str d.d_to) ^ "]";
+                           field_of_str d.d_subject;
+                           string_of_int (String.length src);
+                           Mlutil.hex src ]) ms))) st in
+  let boxes = List.sort (fun (a, _) (b, _) -> compare a b) boxes in
+  if boxes = [] then "-" else
+  String.concat "," (List.map (fun (n, ms) -> Mlutil.hex n ^ "=" ^ ms) boxes)
+
+let handle_smtp (ins : string list) (outs : string list) : bool =
+  match ins with
+  | [naming; maxr; maxb; da; acc; rej; ds; sto; dis; rejo; store; stream] ->
+        let f = str_of_field in
+        let pol = load_cfg (bool_of_field da) (f acc) (f rej) (bool_of_field ds) (f sto) (f dis) (f rejo) in
+        let c = { pol = pol; max_rcpt = z_of_int (int_of_string maxr); max_bytes = z_of_int (int_of_string maxb);
+                  tls_enabled = false } in
+        (match outs with
+         | [replies; mt; rt; ht; dump; status] ->
+             let o = { t_mail = parse_mail_table mt; t_rcpt = parse_rcpt_table rt; t_mail_hook = [];
+                       t_rcpt_hook = []; t_hdr = parse_hdr_table ht; t_msg_hook = [] } in
+             let ((items, tr), _) = run_bytes c o (f stream) in
+             let m_replies = show_replies (replies_of tr) in
+             let m_store = show_store (deliveries_of tr) in
+             (* the oracles: the specifications applied to the implementation's answers *)
+             let dlg = attach items (parse_replies replies) in
+             let ent = entitled c None [] [] dlg in
+             let v = ref [] in
+             if not (seq_ok false false O dlg) then v := "C03:sequencing" :: !v;
+             if not (List.for_all reply_ok dlg) then v := "C03:reply-shape" :: !v;
+             if List.length (List.concat (List.map snd dlg)) <> List.length (parse_replies replies)
+             then v := "C03:reply-count" :: !v;
+             if status <> "ok" then v := "C03:session-error" :: !v;
+             if show_store ent <> dump then begin
+               v := "C01:store-differs-from-what-the-dialogue-entitles" :: !v;
+               v := "C03:partial-phantom-or-misrouted-message" :: !v;
+               v := "C05:session-store-or-accept-rule" :: !v;
+               v := "C06:store-differs-from-what-the-dialogue-entitles" :: !v
+             end;
+             (* size rule on the implementation's dialogue: an oversize block must be refused and
+                must leave nothing behind (the store clause is covered by the entitlement check) *)
+             let size_viol = List.exists (fun (it, r) ->
+               match it with
+               | B (PBlock (body, _, _)) ->
+                   List.length body > int_of_string maxb && int_of_z (first_code r) = 250
+               | L (Mail (MParsed (SzVal n, _), _)) ->
+                   int_of_z n > int_of_string maxb && int_of_z (first_code r) = 250
+               | _ -> false) dlg in
+             if size_viol then v := "C06:oversize-accepted" :: !v;
+             let within_refused = List.exists (fun (it, r) ->
+               match it with
+               | B (PBlock (body, _, _)) ->
+                   List.length body <= int_of_string maxb && int_of_z (first_code r) = 552
+               | _ -> false) dlg in
+             if within_refused then v := "C06:within-limit-refused" :: !v;
+             (* C05: a RCPT answered 250 beyond the recipient limit *)
+             let over = ref false in
+             let n = ref 0 in
+             List.iter (fun (it, r) ->
+               let ok = int_of_z (first_code r) = 250 in
+               match it with
+               | L (Mail (_, _)) -> if ok then n := 0
+               | L (Rcpt (_, _)) -> if ok then begin incr n; if !n > max 0 (int_of_string maxr) then over := true end
+               | L Rset | L (Helo _) | L (Ehlo _) -> if ok then n := 0
+               | B _ -> n := 0
+               | _ -> ()) dlg;
+             if !over then v := "C05:recipient-limit-exceeded" :: !v;
+             let mine = List.filter (fun s -> String.length s > 3 && String.sub s 0 3 = pid) !v in
+             let verdict = if mine = [] then "ok" else "fail:" ^ String.concat ";" (List.rev mine) in
+             Mlutil.print_model [m_replies; mt; rt; ht; m_store; "ok"] verdict
+         | _ -> Mlutil.print_model ["NO-OBSERVATION"] "fail:no-observation"); true
+  | _ -> false
 
 let () =
   Mlutil.iter_lines (fun line ->
@@ -35,4 +171,5 @@ let () =
               else "fail:origin-rule"
           | _ -> "fail:no-answer" in
         Mlutil.print_model (List.map field_of_bool m) verdict
+    | "smtp", _ when handle_smtp ins outs -> ()
     | _ -> Mlutil.print_model ["UNKNOWN-KIND"] "ok")
